@@ -22,3 +22,10 @@ Lemma record_type_tie : forall record_output (slot : option N),
   rt_code' (record_type_of record_output slot) =
   gen_record_type record_output (match slot with None => true | Some _ => false end).
 Proof. intros [] [s|]; reflexivity. Qed.
+
+(* the copier loop: the decision of one iteration, as translated from utils/tee.py, is the model's *)
+Definition tee_eff_code (e : tee_eff) : N := match e with TBreak => 0 | TFileWrite => 1 | TStreamWrite => 2 | TStreamOff => 3 end.
+
+Lemma tee_iteration_tie : forall data_empty stream_ok write_ok,
+  map tee_eff_code (tee_iteration data_empty stream_ok write_ok) = gen_tee_iteration data_empty stream_ok write_ok.
+Proof. intros [] [] []; reflexivity. Qed.
